@@ -8,8 +8,8 @@ ASSUMPTIONS = [
 
 
 def T(quick, thorough, floor=200, **kw):
-    q = {"cases_per_shard": quick, "legs": ["debug", "release"], "floor": floor}
-    t = {"cases_per_shard": thorough, "legs": ["debug", "release"], "floor": floor}
+    q = {"cases_per_shard": quick, "legs": ["debug", "release"], "floor": floor, "hang_s": 20}
+    t = {"cases_per_shard": thorough, "legs": ["debug", "release"], "floor": floor, "hang_s": 60}
     q.update(kw.pop("q", {}))
     t.update(kw.pop("t", {}))
     d = {"quick": q, "thorough": t}
@@ -18,6 +18,24 @@ def T(quick, thorough, floor=200, **kw):
 
 
 PROPS = {
+    "C01": T(400, 10000, sites=["graph_index_twice_one", "graph_index_twice_both", "graph_remove_node_swapped", "graph_remove_edge_swapped"],
+             t={"legs": ["debug", "release", "asan", "miri"], "asan_cases_per_shard": 1200, "miri_cases_per_shard": 3},
+             rule="operation histories on Graph<u32,u32,Ty,Ix> (2 edge types x u8/u16/u32/usize; 30-400 ops out of 16 kinds: add/try_add/"
+                  "Build::add node+edge, update_edge, remove_edge, remove_node, weight mutation via 3 routes, reverse, clear(_edges), "
+                  "retain_nodes/edges, map, filter_map, extend_with_edges, clone(_from), into_edge_type round trip, Graph<->StableGraph, "
+                  "into_nodes_edges, index_twice_mut incl. via Frozen, capacity ops; 5-30% absent-index arguments; from_edges / "
+                  "from_elements / with_capacity starts; 1/6 of the u8 histories first fill to 255 nodes and ~255 edges) against the "
+                  "compact multigraph model with unique weight ids; full observation sweep after every mutation on graphs <= 12 nodes; "
+                  "non-trivial = >=10 ops incl. >=1 removal-type op; distinct = hash of (op-kind sequence, final structure)"),
+    "C05": T(800, 20000, sites=["csr_find_linear", "csr_find_binary"],
+             t={"legs": ["debug", "release", "asan", "miri"], "asan_cases_per_shard": 2500, "miri_cases_per_shard": 6},
+             rule="Csr histories (directed/undirected x u8/u16/u32/usize; 20-500 ops: add_node, add_edge/try_add_edge towards hub "
+                  "rows of length 0..80 in ascending/descending/random target order, 8% out-of-range endpoints, clear_edges, clone) "
+                  "against a set model with first-weight-wins, full sweeps incl. raw row/column arrays; Csr::from_sorted_edges on "
+                  "sorted unique lists (must equal edge-by-edge insertion in random order) and 4 perturbations (must be rejected); "
+                  "adj::List histories (add_node*, add_edge incl. parallel, Build::update_edge, clear, clone, out-of-range panics) "
+                  "against a Vec<Vec<>> model, every EdgeIndex ever returned re-resolved at each sweep; non-trivial = >=3 nodes and "
+                  ">=3 edges at the end; distinct = hash of (type, final structure)"),
     "C19": T(1500, 40000, sites=["unionfind_halving_step"],
              t={"legs": ["debug", "release", "asan", "miri"], "asan_cases_per_shard": 4000, "miri_cases_per_shard": 6},
              rule="operation histories (30-400 calls; new/new_empty/with_capacity + new_set growth, union/try_union, find/find_mut/"
